@@ -67,12 +67,42 @@ def rule_reserved(chk):
     chk.need(len(tests) == 1, "_MessageSerializer.validate: `key not in <allowed>` test not found")
     allowed = tests[0].exprs[0].comparators[0] if allowed_parts is None else None
 
+    shared = []
+
     def operands(e):
         e2 = e
         if isinstance(e2, ast.Name):
             vals = assigned_values(v, e2.id)
             if len(vals) == 1 and vals[0] is not None:
                 e2 = vals[0]
+        if common.is_self_attr(e2) and e2.attr != "fields":
+            # a set kept on the serializer: the class-level starting value, extended per instance in __init__
+            cls_ = v.cls
+            v0 = cls_.attrs.get(e2.attr)
+            init_ = cls_.find_method("__init__")
+            ups = [x for x in iter_own_nodes(init_.node) if isinstance(x, (ast.AugAssign, ast.Assign))
+                   and any(common.is_self_attr(t_, e2.attr) for t_ in ([x.target] if isinstance(x, ast.AugAssign) else x.targets))] if init_ is not None else []
+            other_writers = [m_ for m_ in set(cls_.methods.values()) if m_ is not init_ and any(
+                isinstance(x, ast.Attribute) and isinstance(x.ctx, (ast.Store, ast.Del)) and common.is_self_attr(x, e2.attr) for x in ast.walk(m_.node))]
+            if other_writers:
+                raise AnalysisError("_MessageSerializer.%s is also written by %s (not modelled)" % (e2.attr, [m_.name for m_ in other_writers]))
+            out = []
+            if isinstance(v0, ast.AST):
+                mutable0 = isinstance(v0, (ast.Set, ast.SetComp)) or (isinstance(v0, ast.Call) and isinstance(v0.func, ast.Name) and v0.func.id == "set")
+                for u_ in ups:
+                    if isinstance(u_, ast.AugAssign) and mutable0:
+                        shared.append((e2.attr, u_))
+                inner = v0.args[0] if isinstance(v0, ast.Call) and isinstance(v0.func, ast.Name) and v0.func.id in ("frozenset", "set", "tuple") and len(v0.args) == 1 else v0
+                out += [inner]
+            for u_ in ups:
+                if isinstance(u_, ast.AugAssign) and isinstance(u_.op, ast.BitOr):
+                    out += operands(u_.value)
+                elif isinstance(u_, ast.Assign):
+                    out += [o_ for o_ in operands(u_.value) if not common.is_self_attr(o_, e2.attr)]
+                else:
+                    raise AnalysisError("_MessageSerializer.__init__ updates %s with %s (not modelled)" % (e2.attr, unparse(u_)[:40]))
+            if out:
+                return out
         if isinstance(e2, ast.BinOp) and isinstance(e2.op, ast.BitOr):
             return operands(e2.left) + operands(e2.right)
         if isinstance(e2, ast.Call) and isinstance(e2.func, ast.Attribute) and e2.func.attr == "union":
@@ -95,6 +125,10 @@ def rule_reserved(chk):
             const |= set(val)
         else:
             unknown.append(txt)
+    for attr_, u_ in shared:
+        chk.bad("C14.reserved", "_MessageSerializer.%s:per-serializer" % attr_, chk.where(v.cls.find_method("__init__"), u_.lineno),
+                "`%s` updates in place the ONE set object created at class level (`%s = %s`): every serializer in the process then shares one ever-growing allowed set, and a message with an "
+                "undeclared field is accepted whenever any other type declares a field of that name" % (unparse(u_)[:50], attr_, unparse(v.cls.attrs.get(attr_))[:40]))
     chk.req(declared >= 1 and const == STATED_RESERVED and not unknown, "C14.reserved", "_MessageSerializer.validate:allowed-set-is-declared-plus-reserved", chk.where(v, tests[0].lineno),
             good="allowed = declared fields | %s" % sorted(const),
             fail="the no-extras rule allows declared fields %s plus %s%s; it must be declared | %s exactly" % ("(missing!)" if not declared else "", sorted(const), (" plus " + str(unknown)) if unknown else "", sorted(STATED_RESERVED)))
